@@ -180,7 +180,7 @@ package parser
 //@   props C06
 //@   effects none
 //@   ensures [nonempty] result ==> len(value) > 0
-//@   loop 1 invariant 0 <= iterpos1 && iterpos1 <= len(value) && len(value) > 0
+//@   loop 1 invariant 0 <= iterpos && iterpos <= len(value) && len(value) > 0
 
 //@ func (*Lexer).scanDate
 //@   effects noalloc
@@ -449,8 +449,9 @@ package parser
 //@   props C06
 //@   requires ParInv(p)
 //@   ensures [inv] ParInv(p) && PFrame(p) && p.current.Type == TokenEOF
+//@   ensures [nonnil] result != nil && fresh(result)
 //@   modifies p.current, p.errors, p.defaultYear, p.lexer.pos, p.lexer.column, p.lexer.line, p.lexer.atStart
-//@   loop 1 invariant ParInv(p) && PFrame(p)
+//@   loop 1 invariant ParInv(p) && PFrame(p) && journal != nil && fresh(journal)
 //@   loop 1 decreases 2 * (len(p.lexer.input) - p.lexer.pos) + ite(p.current.Type != TokenEOF, 1, 0)
 
 //@ func (*Parser).parseSubdirectives
@@ -514,4 +515,4 @@ package parser
 
 //@ func Parse
 //@   props C06
-//@   ensures [total] true
+//@   ensures [nonnil] result0 != nil && fresh(result0)
